@@ -131,30 +131,70 @@ def _loop_heads(blocks):
 _loop_heads.cache = (None, set())
 
 
-def thread(body, rounds=12):
-    """In-place on a body that is private to the caller (clone / inlined copy).  Returns the number of threaded edges."""
-    blocks = body.blocks
-    total = 0
-    # a call whose return edge enters a merge block gets a landing block of its own, so that the merge can be duplicated for it
+def _landing_blocks(blocks):
+    """A call whose return edge enters a merge block gets a landing block of its own, so that the merge can be duplicated for it."""
     preds0 = {}
     for bid, blk in blocks.items():
         if not blk.cleanup:
             for t in (blk.term.targets or []):
                 preds0.setdefault(t, []).append(bid)
     nxt = max(blocks) + 1 if blocks else 0
+    made = 0
     for bid in sorted(blocks):
         blk = blocks[bid]
-        if blk.cleanup or blk.term.kind != 'call' or len(blk.term.targets or []) != 1:
+        if blk.cleanup or blk.term.kind not in ('call', 'drop') or len(blk.term.targets or []) != 1:
             continue
         tg = blk.term.targets[0]
-        if len(set(preds0.get(tg, []))) > 1 and tg in blocks and not blocks[tg].cleanup:
+        if len(set(preds0.get(tg, []))) > 1 and tg in blocks and not blocks[tg].cleanup and blocks[tg].term.kind in ('switchInt', 'goto'):
             e = mir.Block(nxt, False)
             e.term = _mk_goto(tg, blk.term.span)
             blocks[nxt] = e
             blk.term.targets = [nxt]
             nxt += 1
+            made += 1
+    return made
+
+
+def _merge_chains(blocks):
+    """Maximal straight-line blocks: a block that ends in `goto` / `drop` into a block with no other predecessor absorbs it (a
+    `drop` becomes a no-op statement: this copy of the body is only read for values, decisions and calls)."""
+    merged = 0
+    while True:
+        preds = {}
+        for bid, blk in blocks.items():
+            if not blk.cleanup:
+                for t in (blk.term.targets or []):
+                    preds.setdefault(t, []).append(bid)
+        entry = 0 if 0 in blocks else (min(blocks) if blocks else None)
+        did = False
+        for bid in sorted(blocks):
+            B = blocks.get(bid)
+            if B is None or B.cleanup or B.term.kind not in ('goto', 'drop') or len(B.term.targets or []) != 1:
+                continue
+            tid = B.term.targets[0]
+            T = blocks.get(tid)
+            if T is None or T.cleanup or tid == bid or tid == entry or len(preds.get(tid, [])) != 1:
+                continue
+            if B.term.kind == 'drop':
+                B.stmts = B.stmts + [mir.Stmt('nop', None, None, 'drop ' + (B.term.place or ''), B.term.span)]
+            B.stmts = B.stmts + list(T.stmts)
+            B.term = T.term
+            del blocks[tid]
+            merged += 1
+            did = True
+            break
+        if not did:
+            return merged
+
+
+def thread(body, rounds=12):
+    """In-place on a body that is private to the caller (clone / inlined copy).  Returns the number of threaded edges."""
+    blocks = body.blocks
+    total = 0
     dup_budget = [300]
     for _ in range(rounds):
+        _merge_chains(blocks)
+        _landing_blocks(blocks)
         preds = {}
         for bid, blk in blocks.items():
             if blk.cleanup:
